@@ -24,6 +24,65 @@ struct Inc {
     jump: (i128, i128),
 }
 
+/// One commit of the history fails (its writes stay pending and reach the disk with the next successful commit).
+/// Model-free judgement of "durably records its finish time and the target version before any reboot is
+/// attempted": at perform_reboot after an install with no failed app, the finish time written after that install
+/// and whatever the target-version entry now holds are on disk (pending value == committed value).
+fn model_commit_fault(log: &[Rec], m: &mut Mon) {
+    const KEYS: [&str; 2] = ["update_finish_time", "target_version"];
+    let mut pending: BTreeMap<String, Option<Val>> = BTreeMap::new();
+    let mut committed: BTreeMap<String, Option<Val>> = BTreeMap::new();
+    let mut clean_install = false;
+    let mut finish_written = false;
+    let mut failed_commits = 0u32;
+    for r in log {
+        match &r.ev {
+            Ev::StorageSet { key, value, ok: true } if KEYS.contains(&key.as_str()) => {
+                pending.insert(key.clone(), Some(value.clone()));
+                if key == "update_finish_time" && clean_install {
+                    finish_written = true;
+                }
+            }
+            Ev::StorageRemove { key, ok: true } if KEYS.contains(&key.as_str()) => {
+                pending.insert(key.clone(), None);
+            }
+            Ev::Commit { ok: true, snapshot } => {
+                for k in KEYS {
+                    committed.insert(k.to_string(), snapshot.get(k).cloned());
+                    pending.insert(k.to_string(), snapshot.get(k).cloned());
+                }
+            }
+            Ev::Commit { ok: false, .. } => failed_commits += 1,
+            Ev::Restart => {
+                pending = committed.clone();
+                clean_install = false;
+                finish_written = false;
+            }
+            Ev::Taken(EvSnap::State(StateSnap::Checking(_))) => {
+                clean_install = false;
+                finish_written = false;
+            }
+            Ev::InstallDone { results } => {
+                clean_install = !results.iter().any(|x| *x == InstRes::Failed);
+                finish_written = false;
+            }
+            Ev::Reboot => {
+                if clean_install && failed_commits <= 1 {
+                    let same = KEYS.iter().all(|k| pending.get(*k).cloned().flatten() == committed.get(*k).cloned().flatten());
+                    m.judge("c18-finish-and-target-committed-before-reboot", finish_written && same, "one-failing-commit", || {
+                        format!(
+                            "at seq {} (perform_reboot) after an install with no failed app and a single failed commit: finish time written={}, store holds {:?}, written {:?}",
+                            r.seq, finish_written, committed, pending
+                        )
+                    });
+                }
+                clean_install = false;
+            }
+            _ => {}
+        }
+    }
+}
+
 fn model(log: &[Rec], setups: &[Setup], exact_first_seen: bool, commit_faults: bool, m: &mut Mon) {
     // earliest sighting (start of an install attempt) of every plan id in the whole history
     let mut first_sighting: BTreeMap<String, i128> = BTreeMap::new();
@@ -555,8 +614,8 @@ pub fn run(args: &Args, r: &mut Report) {
         let mut case = FlowCase::new(incs[0].setup.clone(), script);
         // a store that, for a while, refuses to write the first-seen record (either of its two entries)
         // a store one of whose commits fails (the writes stay pending and reach the disk with the next commit)
-        // (kept off: the durability model below is not fault-aware enough for failing commits; see DESIGN §12, C18-20)
-        let commit_fault = false && rng.chance(1, 8);
+        // (such cases are judged by model_commit_fault only)
+        let commit_fault = rng.chance(1, 8);
         if commit_fault {
             case.fault.fail_commit_nth = vec![rng.below(14)];
             shape.push("commit-fault".into());
@@ -632,7 +691,14 @@ pub fn run(args: &Args, r: &mut Report) {
         let mut m = Mon::default();
         {
             let g = lock(&w);
-            model(&g.log, &setups, !faulty_first_seen, commit_fault, &mut m);
+            if commit_fault {
+                // with a commit that fails once the book-keeping model above is not decided (the store may be
+                // behind for a whole check); what the statement does decide is judged on the store alone
+                model_commit_fault(&g.log, &mut m);
+                r.count("cases-with-one-failing-commit", 1);
+            } else {
+                model(&g.log, &setups, !faulty_first_seen, commit_fault, &mut m);
+            }
         }
         let desc = json!({"shape": shape, "autotick": autotick});
         if let Some(p) = &panicked {
